@@ -183,9 +183,9 @@ pub const FAMILIES: &[Family] = &[
         format!("#ruledef\n{{\n    gz {{x}} => asm {{ gz ({}) }}\n}}\ngz 1\n", arg.join("+"))
     } },
     // a data directive whose value is an asm block that again holds a data directive ... (invalid from the second
-    // level on - "invalid content for `asm` block" - but it must be SAID, at every depth; capped at 20000 levels: finding
+    // level on - "invalid content for `asm` block" - but it must be SAID, at every depth; capped at 3000 levels: finding
     // the end of each block re-scans its content, and beyond that the quadratic work meets the CPU limit first)
-    Family { name: "nest-asm-in-data", nesting: true, gen: |n, _| format!("#ruledef\n{{\n    nop => 0x00\n}}\n#d8 {}asm {{ nop }}{}\n", rep("asm { #d8 ", n.min(20_000)), rep(" }", n.min(20_000))) },
+    Family { name: "nest-asm-in-data", nesting: true, gen: |n, _| format!("#ruledef\n{{\n    nop => 0x00\n}}\n#d8 {}asm {{ nop }}{}\n", rep("asm { #d8 ", n.min(3_000)), rep(" }", n.min(3_000))) },
 ];
 
 pub fn magnitudes() -> Vec<String> {
